@@ -63,3 +63,71 @@ Example C04_walk_computed :
   (* resuming after the deleted item "b" returns what follows it *)
   pages lang_match (ctx_of w_client) w_table w_query 4 1 [(bs "h", AS (bs "b"))] = Some [it "c" "4"].
 Proof. vm_compute. repeat split; reflexivity. Qed.
+
+(* ---------- through an index, with a run of equal index keys ---------- *)
+From Minidyn Require Import Proofs.FMapFacts Proofs.IndexInv Proofs.TableIndexInv Proofs.ClientIndexInv Proofs.PaginationIndex.
+
+Definition itg (h g x : string) : item := [(bs "g", AS (bs g)); (bs "h", AS (bs h)); (bs "x", AN (bs x))].
+
+Definition wi_ops : list (str * op) :=
+  [ (bs "c", OAddTable (bs "tbl") (bs "h") []);
+    (bs "c", OAddIndex (bs "tbl") (bs "gix") (bs "g") []);
+    (bs "c", OPut (bs "tbl") (itg "k1" "p" "1") None [] []);
+    (bs "c", OPut (bs "tbl") (itg "k2" "p" "2") None [] []);
+    (bs "c", OPut (bs "tbl") (itg "k3" "p" "3") None [] []);
+    (bs "c", OPut (bs "tbl") (itg "k0" "q" "4") None [] []);
+    (bs "c", OPut (bs "tbl") (it "k9" "5") None [] []) ].       (* not in the index: no "g" *)
+
+Definition wi_client : client :=
+  match lookup (bs "c") (fst (run lang_match lang_update V2 [] wi_ops)) with Some c => c | None => new_client end.
+Definition wi_table : table :=
+  match lookup (bs "tbl") (c_tables wi_client) with Some t => t | None => w_table end.
+Definition wi_index : index :=
+  match lookup (bs "gix") (t_indexes wi_table) with Some ix => ix | None => new_index IxGlobal [] [] end.
+
+(* a query on the index partition "p" with a filter *)
+Definition wi_query : query :=
+  {| q_index := Some (bs "gix"); q_values := [(bs ":g", AS (bs "p")); (bs ":v", AN (bs "2"))]; q_names := []; q_limit := 0; q_esk := [];
+     q_keycond := bs "g = :g"; q_filter := bs "x <> :v"; q_cond := None; q_forward := true; q_scan := false |}.
+
+Definition wi_ev (k : str) : etype * bool * list nat :=
+  match match_key lang_match (ctx_of wi_client) wi_table wi_query (get_item wi_table k) with
+  | Ok r => r | _ => (ENone, false, []) end.
+
+Lemma wi_reach : lookup (bs "c") (fst (run lang_match lang_update V2 [] wi_ops)) = Some wi_client /\
+                 lookup (bs "tbl") (c_tables wi_client) = Some wi_table /\
+                 lookup (bs "gix") (t_indexes wi_table) = Some wi_index.
+Proof. repeat split; vm_compute; reflexivity. Qed.
+
+Lemma wi_entries : ies wi_query wi_index = [(bs "p", bs "k1"); (bs "p", bs "k2"); (bs "p", bs "k3"); (bs "q", bs "k0")].
+Proof. vm_compute. reflexivity. Qed.
+
+Example C04_index_premises_met :
+  q_index wi_query = Some (bs "gix") /\ lookup (bs "gix") (t_indexes wi_table) = Some wi_index /\ q_cond wi_query = None /\
+  secondary (t_ks wi_table) = false /\ KInv wi_table /\ IInv (t_defs wi_table) (t_data wi_table) wi_index /\
+  (forall e, In e (ies wi_query wi_index) ->
+     match_key lang_match (ctx_of wi_client) wi_table wi_query (get_item wi_table (snd e)) = Ok (wi_ev (snd e))).
+Proof.
+  destruct wi_reach as [R1 [R2 R3]].
+  assert (run_env EK (UK lang_update) lang_match lang_update V2 [] wi_ops) as E1.
+  { unfold wi_ops. cbn [run_env step_env snd fst]. split; [exact I|]. split.
+    - intros t0 H0. vm_compute in H0. inversion H0. split; [reflexivity|left; reflexivity].
+    - repeat split. }
+  assert (run_env EX UAny lang_match lang_update V2 [] wi_ops) as E2.
+  { unfold wi_ops. cbn [run_env step_env snd fst]. split; [exact I|]. split.
+    - intros t0 H0. vm_compute in H0. inversion H0. reflexivity.
+    - repeat split. }
+  destruct (KInv_reachable lang_match lang_update V2 wi_ops _ _ _ _ E1 R1 R2) as [HT HK].
+  destruct (XInv_reachable lang_match lang_update V2 wi_ops _ _ _ _ E2 R1 R2) as [_ HX].
+  split; [reflexivity|]. split; [exact R3|]. split; [reflexivity|]. split; [vm_compute; reflexivity|].
+  split; [exact HK|]. split; [apply (HX (bs "gix")); apply lookup_In; exact R3|].
+  intros e He. rewrite wi_entries in He.
+  destruct He as [<-|[<-|[<-|[<-|[]]]]]; vm_compute; reflexivity.
+Qed.
+
+(* Limit 1 inside the run of equal index keys "p": pages [k1], [] (k2 filtered out), [k3], then the entry of "q" ends the
+   key condition; the walk returns what the unpaginated query returns *)
+Example C04_index_walk_computed :
+  ipages lang_match (ctx_of wi_client) wi_table wi_query 5 1 [] = Some [itg "k1" "p" "1"; itg "k3" "p" "3"] /\
+  search_data lang_match (ctx_of wi_client) wi_table (with_page wi_query 0 []) = Ok ([itg "k1" "p" "1"; itg "k3" "p" "3"], [], []).
+Proof. vm_compute. repeat split; reflexivity. Qed.
